@@ -34,6 +34,22 @@ package checks
 // oracle decides: A's retry must re-deliver the commit.  The control of such a schedule is the
 // same schedule without the fault window.
 
+//
+// Scenario families beyond the plain collection (c15_variants.go).  (1) @branchable collection: every
+// write on A also makes a collection-level commit, announced by an update event without a document
+// id; B must end with A's collection-level heads (/db/heads/c/...) as well, and the newest
+// collection-level announcement counts for A's quiescence like a document's.  (2) Document ACP on
+// both nodes, documents registered to an owner identity on A only.  (3) `setrep`: the replicator is
+// configured after documents exist (SetReplicator's own push of the existing heads; its end is
+// observed through the replicator-completed event), `delrep`: it is deleted while retries are
+// pending.  A schedule without outage and fault window is its own control; a loss in a control is
+// reported as undelivered-without-outage/...
+//
+// Third clock-free criterion (retry rounds that do nothing): the retry record has started
+// c15IdleRetryRounds further rounds during which A sent no push (every attempt, also a failed dial,
+// is journalled) and the set of retry-doc markers did not change, B reachable, nothing in flight
+// on B: the retry loop is alive but leaves A exactly as it finds it.
+
 import (
 	"context"
 	"encoding/json"
@@ -52,6 +68,7 @@ import (
 	"github.com/sourcenetwork/immutable"
 	"github.com/sourcenetwork/lens/host-go/config/model"
 
+	"github.com/sourcenetwork/defradb/acp/identity"
 	"github.com/sourcenetwork/defradb/client"
 	icore "github.com/sourcenetwork/defradb/internal/core"
 	coreblock "github.com/sourcenetwork/defradb/internal/core/block"
@@ -71,6 +88,7 @@ const (
 	c15ConfirmPolls     = 14                     // successive identical quiescent observations (> one retry-loop period)
 	c15StuckPolls       = 48                     // observations of a "retrying" record without any push
 	c15NoProgressRounds = 6                      // identical failed deliveries against an unchanged receiver
+	c15IdleRetryRounds  = 5                      // retry rounds of A that pushed nothing and cleared no marker
 	c15SettleMax        = 12 * time.Second
 	c15RetryWait        = 10 * time.Second
 )
@@ -88,7 +106,7 @@ func c15DeadlineNow() time.Duration {
 }
 
 type c15Step struct {
-	Op   string         `json:"op"` // create | update | delete | down | up | patch | settle | waitretry | arm | awaitfault | disarm
+	Op   string         `json:"op"` // create | update | delete | down | up | patch | settle | waitretry | arm | awaitfault | disarm | setrep
 	Doc  int            `json:"doc,omitempty"`
 	Vals map[string]any `json:"vals,omitempty"`
 	Mode string         `json:"mode,omitempty"` // down: peer|node   patch: both|A|B
@@ -97,6 +115,9 @@ type c15Step struct {
 	Fault  string `json:"fault,omitempty"`
 	K      int    `json:"k,omitempty"`
 	Sticky bool   `json:"sticky,omitempty"`
+	// create (scenarios with document ACP): the document is created under the owner identity, i.e.
+	// registered with A's access control (a private document)
+	Private bool `json:"private,omitempty"`
 }
 
 type c15Scenario struct {
@@ -104,11 +125,48 @@ type c15Scenario struct {
 	Config string    `json:"config"`  // rep | pubsub | both
 	BStore string    `json:"b_store"` // badger | file
 	Steps  []c15Step `json:"steps"`
+	// Branchable: the collection is declared @branchable, so every write on A also makes a
+	// collection-level commit (update event without a document id) that B must end up with.
+	Branchable bool `json:"branchable,omitempty"`
+	// ACP: both nodes run a local document ACP and the collection carries a policy; documents
+	// created with Private are registered to an owner identity on A.
+	ACP bool `json:"acp,omitempty"`
+}
+
+// explicitSetRep: the schedule configures the replicator itself (step `setrep`, after documents
+// exist) instead of before the first write.
+func (s c15Scenario) explicitSetRep() bool {
+	for _, st := range s.Steps {
+		switch st.Op {
+		case "setrep":
+			return true
+		case "delrep":
+			return false // the replicator that is deleted is the one configured before the first write
+		}
+	}
+	return false
+}
+
+// hasDisturbance: the schedule contains an outage or a fault window (otherwise it is its own control).
+func (s c15Scenario) hasDisturbance() bool {
+	for _, st := range s.Steps {
+		switch st.Op {
+		case "down", "arm", "delrep":
+			return true
+		}
+	}
+	return false
 }
 
 func (s c15Scenario) canon() string {
 	var sb strings.Builder
 	sb.WriteString(s.Config + "|" + s.BStore + "|")
+	if s.Branchable {
+		sb.WriteString("branchable|")
+	}
+	if s.ACP {
+		sb.WriteString("acp|")
+	}
 	for _, st := range s.Steps {
 		sb.WriteString(st.Op)
 		switch st.Op {
@@ -120,6 +178,9 @@ func (s c15Scenario) canon() string {
 			}
 			sort.Strings(ks)
 			sb.WriteString(strings.Join(ks, ","))
+			if st.Private {
+				sb.WriteString("!private")
+			}
 		case "down", "patch", "up":
 			sb.WriteString(":" + st.Mode)
 		case "arm":
@@ -132,11 +193,17 @@ func (s c15Scenario) canon() string {
 
 // control removes the outage and the fault windows from a schedule.
 func (s c15Scenario) control() c15Scenario {
-	c := c15Scenario{Name: s.Name + "/control", Config: s.Config, BStore: s.BStore}
+	c := c15Scenario{Name: s.Name + "/control", Config: s.Config, BStore: s.BStore, Branchable: s.Branchable, ACP: s.ACP}
 	for _, st := range s.Steps {
 		switch st.Op {
 		case "down", "up", "waitretry", "arm", "awaitfault", "disarm":
 			continue
+		case "delrep":
+			continue // deleting the replicator and configuring it again belongs to the disturbance
+		case "setrep":
+			if !s.explicitSetRep() {
+				continue
+			}
 		}
 		c.Steps = append(c.Steps, st)
 	}
@@ -531,9 +598,14 @@ func c15Cases(seed uint64, tier string) []core.Case {
 	for _, a := range c15FaultAnchors() {
 		cs = append(cs, core.MkCase("anchor", 15, c15Params{Scenario: a}))
 	}
+	for _, a := range c15VariantAnchors() {
+		cs = append(cs, core.MkCase("anchor", 15, c15Params{Scenario: a}))
+	}
 	n, nf := 8, 7
+	nb, na := 5, 3
 	if tier == "thorough" {
 		n, nf = 120, 80
+		nb, na = 40, 20
 	}
 	rng := rand.New(rand.NewPCG(seed, 1515))
 	for i := 0; i < n; i++ {
@@ -544,6 +616,15 @@ func c15Cases(seed uint64, tier string) []core.Case {
 	frng := rand.New(rand.NewPCG(seed, 1516))
 	for i := 0; i < nf; i++ {
 		cs = append(cs, core.MkCase("generated-fault", frng.Uint64(), c15Params{Scenario: c15GenerateFault(frng, i)}))
+	}
+	// branchable collections and document ACP: streams of their own as well
+	brng := rand.New(rand.NewPCG(seed, 1517))
+	for i := 0; i < nb; i++ {
+		cs = append(cs, core.MkCase("generated-branchable", brng.Uint64(), c15Params{Scenario: c15GenerateBranchable(brng, i)}))
+	}
+	arng := rand.New(rand.NewPCG(seed, 1518))
+	for i := 0; i < na; i++ {
+		cs = append(cs, core.MkCase("generated-acp", arng.Uint64(), c15Params{Scenario: c15GenerateACP(arng, i)}))
 	}
 	if d := os.Getenv("VERIF_C15_DUMP_CASES"); d != "" {
 		// development aid: one replayable file per case (`./check C15 --replay <dir>/case-N.json`)
@@ -572,6 +653,15 @@ type c15Outcome struct {
 	NodeRestarts    int
 	PeerRestarts    int
 	InactiveAtEnd   bool
+	// branchable collections / document ACP
+	CollectionCommitsDuringOut int  // collection-level update events of A while B was down
+	CollectionMarkerSeen       bool // a retry marker without a document id (failed push of a collection-level commit) was seen in A's peer store
+	CollectionHeadsCompared    int  // collection-level heads of A that the final comparison covered
+	DocsAtSetRep               int  // documents that existed when the replicator was configured
+	PrivateDocsAtSetRep        int  // ... of which registered with A's access control
+	PrivateWrites              int  // writes to registered documents
+	ReplicatorDeletions        int  // `delrep` steps executed while retry bookkeeping for B existed
+	MarkersSurvivedDeletion    bool // retry record / retry-doc markers for B were still in A's peer store after DeleteReplicator and two periods of the retry loop (which is to clean them up)
 	// interrupted syncs
 	FaultWindows           int              // arm steps executed
 	FaultsFired            int              // windows in which an operation was failed
@@ -605,6 +695,14 @@ type c15Run struct {
 	mf        *core.MatchFault
 	armStep   c15Step
 	halfHeads map[string]int // head of A that B held without its complete DAG -> length of B's receive journal when observed
+	// branchable / ACP / explicit SetReplicator
+	opCtx        context.Context // context of the writes and of the comparison queries (owner identity with ACP)
+	private      map[int]bool    // document index -> registered with A's access control
+	atSetRep     map[string]bool // docIDs that existed when `setrep` ran
+	preRep       map[string]bool // heads (document and collection level) A had when `setrep` ran: their delivery is the business of SetReplicator's initial push, not of an update event
+	repSet       bool            // `setrep` ran
+	repPending   bool            // `setrep` ran and its replicator-completed event has not been seen yet
+	repCompleted int             // replicator-completed events seen before `setrep`
 }
 
 func (x *c15Run) logf(f string, a ...any) {
@@ -619,7 +717,7 @@ var c15Serial struct {
 func runC15Schedule(ctx context.Context, sc c15Scenario, keyTag string) (out *c15Outcome) {
 	out = &c15Outcome{Scenario: sc, Detail: map[string]any{}, HalfSyncedAfterRestart: map[string]int{}}
 	x := &c15Run{ctx: ctx, sc: sc, docIDs: map[int]client.DocID{}, out: out, logFrom: p2p.LogLen(), aborted: map[string]int{}, blocksAtRecv: map[int]int{},
-		mf: core.NewMatchFault(), halfHeads: map[string]int{}}
+		mf: core.NewMatchFault(), halfHeads: map[string]int{}, opCtx: ctx, private: map[int]bool{}, atSetRep: map[string]bool{}, preRep: map[string]bool{}}
 	defer func() {
 		if p := recover(); p != nil {
 			out.Verdict, out.Err = "setup-error", fmt.Sprint(p)
@@ -641,6 +739,7 @@ func runC15Schedule(ctx context.Context, sc c15Scenario, keyTag string) (out *c1
 	c15Serial.Unlock()
 	aCfg := p2p.Cfg{Name: "A", KeySeed: []byte(keyTag + "|A"), Port: p2p.AllocPort(), Store: "badger", Retry: time.Second}
 	bCfg := p2p.Cfg{Name: "B", KeySeed: []byte(keyTag + "|B"), Port: p2p.AllocPort(), Store: sc.BStore, Retry: time.Second}
+	aCfg.ACP, bCfg.ACP = sc.ACP, sc.ACP
 	for _, st := range sc.Steps {
 		if st.Op == "arm" {
 			// B's database and peer (block service, bitswap) run on the fault-injecting wrapper
@@ -663,8 +762,22 @@ func runC15Schedule(ctx context.Context, sc c15Scenario, keyTag string) (out *c1
 	}
 	x.b, err = p2p.New(ctx, bCfg)
 	core.Must(err)
+	policyID := ""
+	if sc.ACP {
+		// the same policy on both nodes (each has its own local ACP); documents are registered on A only,
+		// B stores what it receives (unregistered = public there)
+		x.opCtx = identity.WithContext(ctx, immutable.Some[identity.Identity](c10Ident(1)))
+		for _, n := range []*p2p.Node{x.a, x.b} {
+			pr, err := n.DB.AddDACPolicy(x.opCtx, c15Policy)
+			core.Must(err)
+			if policyID != "" && policyID != pr.PolicyID {
+				panic("C15: policy id differs between the nodes")
+			}
+			policyID = pr.PolicyID
+		}
+	}
 	for _, n := range []*p2p.Node{x.a, x.b} {
-		_, err := n.DB.AddSchema(ctx, c15SDL)
+		_, err := n.DB.AddSchema(ctx, c15SDLFor(sc, policyID))
 		core.Must(err)
 	}
 	core.Must(x.a.PeerUp(ctx))
@@ -674,8 +787,16 @@ func runC15Schedule(ctx context.Context, sc c15Scenario, keyTag string) (out *c1
 		core.Must(x.a.Peer.Connect(ctx, x.b.Info()))
 		time.Sleep(400 * time.Millisecond) // gossipsub subscription exchange (the repository's own tests sleep here too)
 	}
-	if sc.Config == "rep" || sc.Config == "both" {
-		core.Must(x.a.Peer.SetReplicator(ctx, x.b.Info()))
+	if (sc.Config == "rep" || sc.Config == "both") && !sc.explicitSetRep() {
+		x.repSet = true
+		if sc.Branchable || sc.ACP {
+			// an update event that overtakes the asynchronous activation of the replicator is left to
+			// SetReplicator's push of the existing heads; on these collections that is a subject of
+			// its own (`setrep` schedules), so the writes start when the replicator is in place
+			x.setReplicatorAndAwait()
+		} else {
+			core.Must(x.a.Peer.SetReplicator(ctx, x.b.Info()))
+		}
 	}
 	for i, st := range sc.Steps {
 		x.step(i, st)
@@ -730,12 +851,21 @@ func (x *c15Run) step(i int, st c15Step) {
 		col := x.colA()
 		doc, err := client.NewDocFromMap(st.Vals, col.Definition())
 		core.Must(err)
-		err = col.Create(ctx, doc)
-		x.logf("%d create d%d %v -> %s err=%v", i, st.Doc, st.Vals, doc.ID(), err)
+		cctx := ctx
+		if st.Private && x.sc.ACP {
+			cctx = x.opCtx
+			x.private[st.Doc] = true
+			x.out.PrivateWrites++
+		}
+		err = col.Create(cctx, doc)
+		x.logf("%d create d%d %v private=%v -> %s err=%v", i, st.Doc, st.Vals, x.private[st.Doc], doc.ID(), err)
 		core.Must(err)
 		x.docIDs[st.Doc] = doc.ID()
 		if x.bDown {
 			x.out.WritesDuringOut++
+			if x.sc.Branchable {
+				x.out.CollectionCommitsDuringOut++
+			}
 		}
 	case "update":
 		col := x.colA()
@@ -744,7 +874,7 @@ func (x *c15Run) step(i int, st c15Step) {
 			x.logf("%d update d%d skipped (no such document)", i, st.Doc)
 			return
 		}
-		doc, err := col.Get(ctx, id, false)
+		doc, err := col.Get(x.opCtx, id, false)
 		if err != nil {
 			x.logf("%d update d%d skipped: %v", i, st.Doc, err)
 			return
@@ -752,11 +882,17 @@ func (x *c15Run) step(i int, st c15Step) {
 		for k, v := range st.Vals {
 			core.Must(doc.Set(k, v))
 		}
-		err = col.Update(ctx, doc)
+		err = col.Update(x.opCtx, doc)
 		x.logf("%d update d%d %v err=%v", i, st.Doc, st.Vals, err)
 		core.Must(err)
+		if x.private[st.Doc] {
+			x.out.PrivateWrites++
+		}
 		if x.bDown {
 			x.out.WritesDuringOut++
+			if x.sc.Branchable {
+				x.out.CollectionCommitsDuringOut++
+			}
 		}
 	case "delete":
 		col := x.colA()
@@ -764,11 +900,65 @@ func (x *c15Run) step(i int, st c15Step) {
 		if !ok {
 			return
 		}
-		_, err := col.Delete(ctx, id)
+		_, err := col.Delete(x.opCtx, id)
 		x.logf("%d delete d%d err=%v", i, st.Doc, err)
 		if err == nil && x.bDown {
 			x.out.WritesDuringOut++
+			if x.sc.Branchable {
+				x.out.CollectionCommitsDuringOut++
+			}
 		}
+	case "delrep":
+		if x.sc.Config == "pubsub" {
+			return
+		}
+		before := x.a.ReplicatorState(ctx, x.b.Info().ID)
+		core.Must(x.a.Peer.DeleteReplicator(ctx, x.b.Info()))
+		x.repSet = false // a later `setrep` configures it again
+		if before.RetryRecord {
+			x.out.ReplicatorDeletions++
+			// the retry loop drops the retry record of a replicator that no longer exists, and with it
+			// (it says) the per-document markers; pacing only
+			var st p2p.ReplState
+			for t0 := time.Now(); time.Since(t0) < c15RetryWait/2; time.Sleep(100 * time.Millisecond) {
+				st = x.a.ReplicatorState(ctx, x.b.Info().ID)
+				if !st.RetryRecord && len(st.RetryDocs) == 0 {
+					break
+				}
+			}
+			if !st.HasReplicator && (st.RetryRecord || len(st.RetryDocs) > 0) {
+				x.out.MarkersSurvivedDeletion = true
+			}
+			x.logf("%d DeleteReplicator: retry record left=%v, retry-doc markers left=%v", i, st.RetryRecord, st.RetryDocs)
+		} else {
+			x.logf("%d DeleteReplicator", i)
+		}
+	case "setrep":
+		if x.sc.Config == "pubsub" || x.bDown || x.repSet {
+			return
+		}
+		x.repSet = true
+		x.atSetRep = map[string]bool{}
+		// everything A has announced so far precedes the replicator: SetReplicator itself pushes the
+		// heads of the existing documents (asynchronously; `replicator-completed` on A's bus marks the
+		// end of that push)
+		for d, id := range x.docIDs {
+			x.atSetRep[id.String()] = true
+			x.out.DocsAtSetRep++
+			if x.private[d] {
+				x.out.PrivateDocsAtSetRep++
+			}
+		}
+		for _, id := range x.docIDs {
+			for _, h := range c15Heads(ctx, x.a, id.String()) {
+				x.preRep[h] = true
+			}
+		}
+		for _, h := range c15CollectionHeads(ctx, x.a) {
+			x.preRep[h] = true
+		}
+		x.setReplicatorAndAwait()
+		x.logf("%d SetReplicator with %d existing documents (%d private); initial push finished=%v", i, x.out.DocsAtSetRep, x.out.PrivateDocsAtSetRep, !x.repPending)
 	case "down":
 		if x.bDown {
 			return
@@ -962,19 +1152,72 @@ func (x *c15Run) pushesQuiet() bool {
 			return false
 		}
 	}
-	lastCid := map[string]string{}
-	for _, e := range x.a.Events() {
-		if e.Name == "update" && !e.Retry && e.DocID != "" {
-			lastCid[e.DocID] = e.Cid
-		}
-	}
-	for _, c := range lastCid {
+	for _, c := range x.newestAnnounced() {
 		if !attempted[c] {
 			return false
 		}
 	}
-	return true
+	return !x.setRepPending()
 }
+
+// newestAnnounced: the newest commit A announced (update event, not a retry) for each document and,
+// on a branchable collection, for the collection itself (key "") - as far as the replicator was
+// configured when it was announced.
+func (x *c15Run) newestAnnounced() map[string]string {
+	lastCid := map[string]string{}
+	for _, e := range x.a.Events() {
+		if e.Name == "update" && !e.Retry && (e.DocID != "" || x.sc.Branchable) {
+			lastCid[e.DocID] = e.Cid
+		}
+	}
+	for k, c := range lastCid {
+		if x.preRep[c] {
+			delete(lastCid, k)
+		}
+	}
+	return lastCid
+}
+
+// setReplicatorAndAwait configures the replicator A->B and waits (pacing) for the end of its
+// asynchronous part: routing table updated, heads of the existing documents pushed.
+func (x *c15Run) setReplicatorAndAwait() {
+	x.repCompleted = x.replicatorCompletedEvents()
+	x.repPending = true
+	core.Must(x.a.Peer.SetReplicator(x.ctx, x.b.Info()))
+	for t0 := time.Now(); time.Since(t0) < c15SettleMax && x.setRepPending(); time.Sleep(20 * time.Millisecond) {
+	}
+}
+
+func (x *c15Run) replicatorCompletedEvents() int {
+	n := 0
+	for _, e := range x.a.Events() {
+		if e.Name == "replicator-completed" {
+			n++
+		}
+	}
+	return n
+}
+
+// setRepPending: `setrep` ran and the end of SetReplicator's initial push has not been announced yet.
+func (x *c15Run) setRepPending() bool {
+	if x.repPending && x.replicatorCompletedEvents() > x.repCompleted {
+		x.repPending = false
+	}
+	return x.repPending
+}
+
+// c15CollectionHeads lists the collection-level heads (/db/heads/c/<collection>/<cid>) of a node.
+func c15CollectionHeads(ctx context.Context, n *p2p.Node) []string {
+	out := []string{}
+	for k := range core.ScanStore(ctx, n.Store, "/db/heads/c/") {
+		out = append(out, k[strings.LastIndex(k, "/")+1:])
+	}
+	sort.Strings(out)
+	return out
+}
+
+// c15CollectionKey is the entry of the head maps that carries the collection-level heads.
+const c15CollectionKey = "(collection-level)"
 
 // halfSyncedHeads lists the composite heads of A whose block B holds while B lacks at least one
 // block of the head's closure (observed on the raw stores, below the fault wrapper).
@@ -1067,7 +1310,7 @@ func (x *c15Run) view(n *p2p.Node) (string, map[string][]string, error) {
 	if x.aPatched && x.bPatched {
 		fields += " email"
 	}
-	rows, err := n.Rows(x.ctx, `query { Doc(showDeleted: true) { `+fields+` } }`, "Doc")
+	rows, err := core.ExecRows(x.opCtx, n.DB, `query { Doc(showDeleted: true) { `+fields+` } }`, "Doc")
 	if err != nil {
 		return "", nil, err
 	}
@@ -1075,6 +1318,9 @@ func (x *c15Run) view(n *p2p.Node) (string, map[string][]string, error) {
 	heads := map[string][]string{}
 	for _, id := range x.docIDs {
 		heads[id.String()] = c15Heads(x.ctx, n, id.String())
+	}
+	if x.sc.Branchable {
+		heads[c15CollectionKey] = c15CollectionHeads(x.ctx, n)
 	}
 	return core.Canon(rows), heads, nil
 }
@@ -1207,20 +1453,20 @@ func (x *c15Run) quiescence() c15Quiescence {
 		// the newest commit A announced for each document must have had its push attempt (an older
 		// one may legitimately never be pushed by itself: a commit made before SetReplicator's
 		// asynchronous activation is covered by the push of the document's heads)
-		lastCid := map[string]string{}
-		for _, e := range x.a.Events() {
-			if e.Name == "update" && !e.Retry && e.DocID != "" {
-				lastCid[e.DocID] = e.Cid
-			}
-		}
 		unpushed := 0
-		for _, c := range lastCid {
+		for _, c := range x.newestAnnounced() {
 			if !attempted[c] {
 				unpushed++
 			}
 		}
 		if unpushed > 0 {
 			q.Why = append(q.Why, fmt.Sprintf("%d documents whose newest update event has had no completed push attempt yet", unpushed))
+		}
+		if x.setRepPending() {
+			q.Why = append(q.Why, "SetReplicator's push of the existing documents has not finished")
+		}
+		if q.Repl.CollectionMarker {
+			x.out.CollectionMarkerSeen = true
 		}
 	}
 	pm := x.pendingMerges()
@@ -1243,6 +1489,7 @@ func (x *c15Run) finish() {
 	out := x.out
 	t0 := time.Now()
 	stable, stuck, lastFP := 0, 0, ""
+	idleKey, idleBase, idleOK := "", 0, false
 	var q c15Quiescence
 	var diff map[string]any
 	for {
@@ -1252,6 +1499,9 @@ func (x *c15Run) finish() {
 		q = x.quiescence()
 		if eq && len(x.pendingMerges()) == 0 {
 			out.Verdict = "converged"
+			if ha, ok := diff["A_heads"].(map[string][]string); ok {
+				out.CollectionHeadsCompared = len(ha[c15CollectionKey])
+			}
 			break
 		}
 		if q.Quiet && q.Fingerprint == lastFP {
@@ -1276,6 +1526,27 @@ func (x *c15Run) finish() {
 		if !eq && stuck >= c15StuckPolls {
 			out.Verdict, out.Cause = "undelivered-quiescent", "retry-record-stuck-in-retrying-state"
 			break
+		}
+		// Third clock-free criterion, counting retry rounds: A's retry record for B has started
+		// c15IdleRetryRounds further rounds (NumRetries is incremented when a round starts) during
+		// which A sent no push at all and the set of retry-doc markers stayed what it was, while B is
+		// reachable and nothing is in flight on B.  A round that walks the markers without pushing
+		// anything and without clearing one leaves A exactly as it found it: the next one will do the same.
+		if x.sc.Config != "pubsub" && q.Repl.RetryRecord && len(q.Repl.RetryDocs) > 0 && !x.bDown {
+			key := fmt.Sprintf("%d|%v", len(q.Sends), q.Repl.RetryDocs)
+			if !idleOK || key != idleKey || q.Repl.NumRetries < idleBase {
+				idleKey, idleBase, idleOK = key, q.Repl.NumRetries, true
+			} else if !eq && q.Repl.NumRetries-idleBase >= c15IdleRetryRounds && c15AllDone(q.Sends) && c15AllDone(x.b.Journal.Pushes()) && len(x.pendingMerges()) == 0 {
+				out.Verdict, out.Cause = "undelivered-quiescent", "retry-rounds-push-nothing-and-clear-no-marker"
+				if q.Repl.CollectionMarker && len(q.Repl.RetryDocs) == 1 {
+					// the only marker left is the one without a document id
+					out.Cause = "collection-level-commit-never-retried"
+				}
+				diff["idle_retry_rounds"] = q.Repl.NumRetries - idleBase
+				break
+			}
+		} else {
+			idleOK = false
 		}
 		if !eq && !x.bDown {
 			x.blocksAtRecv[len(x.b.Journal.Pushes())] = len(core.ScanStore(x.ctx, x.b.Store, "/db/blocks/"))
@@ -1356,8 +1627,38 @@ func (x *c15Run) finish() {
 	if out.Verdict != "undelivered-quiescent" {
 		return
 	}
+	// what kind of commit is missing (observable attributes of the schedule, for the signature)
+	onlyCollection := len(missingDocs) == 1 && missingDocs[0] == c15CollectionKey
+	allAtSetRep, allPrivate := len(missingDocs) > 0, len(missingDocs) > 0
+	privateIDs := map[string]bool{}
+	for d, id := range x.docIDs {
+		if x.private[d] {
+			privateIDs[id.String()] = true
+		}
+	}
+	for _, id := range missingDocs {
+		if !x.atSetRep[id] {
+			allAtSetRep = false
+		}
+		if !privateIDs[id] {
+			allPrivate = false
+		}
+	}
+	if x.sc.Branchable {
+		defer func() { out.Cause = "branchable/" + out.Cause }()
+	}
 	switch {
 	case out.Cause != "":
+	case onlyCollection && len(x.preRep) > 0 && len(x.newestAnnounced()) == 0:
+		// documents arrived through SetReplicator's initial push, the collection-level history did not,
+		// and A has announced nothing since
+		out.Cause = "collection-level-heads-existing-at-setreplicator-never-pushed"
+	case x.sc.ACP && allAtSetRep && allPrivate:
+		if _, pushed := lastErrByDoc[missingDocs[0]]; !pushed {
+			out.Cause = "acp/private-document-existing-at-setreplicator-never-pushed"
+		} else {
+			out.Cause = "acp/private-document-existing-at-setreplicator-pushed-but-missing"
+		}
 	case failedDelivered != "":
 		out.Cause = "receiver-merge-failed-after-push-acknowledged/" + failedDelivered
 	case x.sc.Config == "pubsub":
@@ -1445,6 +1746,23 @@ func (x *c15Run) noProgress() (string, map[string]any) {
 	return cls, map[string]any{"rounds": c15NoProgressRounds, "commit": tail[0].Cid, "doc": tail[0].DocID, "receiver_error": tail[0].Err, "B_block_count": val}
 }
 
+func c15AllDone(ps []p2p.Push) bool {
+	for _, p := range ps {
+		if !p.Done {
+			return false
+		}
+	}
+	return true
+}
+
+// c15Distinct: 1 when the schedule was its own control (one execution), else 2.
+func c15Distinct(fo, co *c15Outcome) int {
+	if fo == co {
+		return 1
+	}
+	return 2
+}
+
 func short(s string) string {
 	if len(s) > 14 {
 		return s[:6] + ".." + s[len(s)-6:]
@@ -1478,12 +1796,18 @@ func runC15(ctx context.Context, c core.Case, r *core.Rec) {
 	// inconclusive; the first attempt is kept as a note.
 	for attempt := 0; attempt < 2; attempt++ {
 		var wg sync.WaitGroup
-		wg.Add(2)
-		go func() { defer wg.Done(); fo = runC15Schedule(ctx, sc, fmt.Sprintf("%s|faulty|%d", tag, attempt)) }()
-		go func() { defer wg.Done(); co = runC15Schedule(ctx, ctl, fmt.Sprintf("%s|control|%d", tag, attempt)) }()
-		wg.Wait()
+		if sc.hasDisturbance() {
+			wg.Add(2)
+			go func() { defer wg.Done(); fo = runC15Schedule(ctx, sc, fmt.Sprintf("%s|faulty|%d", tag, attempt)) }()
+			go func() { defer wg.Done(); co = runC15Schedule(ctx, ctl, fmt.Sprintf("%s|control|%d", tag, attempt)) }()
+			wg.Wait()
+		} else {
+			// no outage and no fault window: the schedule is its own control
+			fo = runC15Schedule(ctx, sc, fmt.Sprintf("%s|faulty|%d", tag, attempt))
+			co = fo
+		}
 		undecided := ""
-		for _, o := range []*c15Outcome{fo, co} {
+		for _, o := range []*c15Outcome{fo, co}[:c15Distinct(fo, co)] {
 			if o.Verdict == "pending-at-deadline" || o.Verdict == "setup-error" {
 				undecided = o.Verdict
 				dj, _ := json.MarshalIndent(map[string]any{"scenario": o.Scenario, "log": o.Log, "detail": o.Detail, "err": o.Err}, "", " ")
@@ -1499,12 +1823,34 @@ func runC15(ctx context.Context, c core.Case, r *core.Rec) {
 	}
 
 	if os.Getenv("VERIF_C15_VERBOSE") != "" {
-		for _, o := range []*c15Outcome{fo, co} {
+		for _, o := range []*c15Outcome{fo, co}[:c15Distinct(fo, co)] {
 			fmt.Fprintf(os.Stderr, "C15 %s: verdict=%s cause=%s err=%s\n  %s\n", o.Scenario.Name, o.Verdict, o.Cause, o.Err, strings.Join(o.Log, "\n  "))
 		}
 	}
-	r.Count("evaluations", 2)
+	r.Count("evaluations", int64(c15Distinct(fo, co)))
 	r.Count("scenarios", 1)
+	if sc.Branchable {
+		r.Count("branchable_scenarios", 1)
+		r.Count("collection_level_commits_during_outage", int64(fo.CollectionCommitsDuringOut))
+		if fo.CollectionMarkerSeen {
+			r.Count("collection_level_push_failure_recorded", 1)
+		}
+		if fo.Verdict == "converged" {
+			r.Count("collection_level_heads_compared", int64(fo.CollectionHeadsCompared))
+		}
+	}
+	if sc.ACP {
+		r.Count("acp_scenarios", 1)
+		r.Count("writes_to_private_documents", int64(fo.PrivateWrites))
+		r.Count("private_documents_existing_at_setreplicator", int64(fo.PrivateDocsAtSetRep))
+	}
+	r.Count("documents_existing_at_setreplicator", int64(fo.DocsAtSetRep))
+	r.Count("replicator_deleted_with_retries_pending", int64(fo.ReplicatorDeletions))
+	if fo.MarkersSurvivedDeletion {
+		// bookkeeping only: the markers are retried (harmlessly) once a later failure creates a new
+		// retry record; no commit is lost through them
+		r.Note("retry_bookkeeping_survives_delete_replicator")
+	}
 	r.Count("config_"+sc.Config, 1)
 	r.Count("writes_during_outage", int64(fo.WritesDuringOut))
 	r.Count("b_peer_restarts", int64(fo.PeerRestarts))
@@ -1590,13 +1936,17 @@ func runC15(ctx context.Context, c core.Case, r *core.Rec) {
 	default:
 		r.Count("controls_not_converged", 1)
 		r.Note("control_not_converged:" + sc.Config + "/" + co.Cause)
-		if fo.Verdict == "converged" {
-			// without the outage the same history does not arrive: not outage handling, but still
-			// a commit of A that nothing will ever deliver
-			r.Count("scenarios_decided", 1)
-			r.Violate("undelivered-without-outage/"+sc.Config+"/"+co.Cause,
-				fmt.Sprintf("control schedule %q (no outage) ends with B lacking commits of A while nothing is pending: %s", ctl.Name, co.Cause), detail())
+		// without the outage the same history does not arrive: not outage handling, but still a
+		// commit of A that nothing will ever deliver (whatever the schedule with the outage did)
+		r.Count("scenarios_decided", 1)
+		if co.Verdict == "no-progress-livelock" {
+			r.Violate("livelock-without-outage/"+sc.Config+"/"+co.Cause,
+				fmt.Sprintf("schedule %q (no outage): A keeps retrying without progress: %s", co.Scenario.Name, co.Cause), detail())
 		} else {
+			r.Violate("undelivered-without-outage/"+sc.Config+"/"+co.Cause,
+				fmt.Sprintf("schedule %q without any outage ends with B lacking commits of A while nothing is pending: %s", co.Scenario.Name, co.Cause), detail())
+		}
+		if fo != co && fo.Verdict != "converged" {
 			r.Note("not_attributable_to_outage")
 		}
 		return
@@ -1629,11 +1979,15 @@ func init() {
 		Rule: "one case = one schedule of writes on A (create/update/delete, 1-3 documents) interleaved with B-down/B-up (peer closed | node closed and reopened on a file store), " +
 			"an add-field patch (both | A only | B later), waits, and interrupted syncs (B's k-th direct block write / read of a window fails: head block stored, linked blocks missing; " +
 			"followed by nothing | a failed retry | a restart of B's peer or node), run next to its control (same schedule without the outage and without the fault) on real loopback libp2p nodes; " +
+			"families of their own: the same schedules on a @branchable collection (collection-level commits, half of them ending inside an outage, a quarter with the replicator configured after the first writes) and " +
+			"document ACP on both nodes (public and owner-registered documents written before and after SetReplicator, optionally around an outage); " +
 			"distinct = canonical schedule; non-trivial = a retry record observed in A's peer store and (a write while B was down, or B observed holding a head of A without its complete DAG) (pubsub-only: a write while B was down)",
 		Cases: c15Cases,
 		Run:   runC15,
 		Floors: []string{"scenarios_decided", "controls_converged", "writes_during_outage", "scenarios_with_retry_record", "retry_after_unapplied_patch", "b_restarted_on_file_store", "scenarios_with_failed_retry", "no_scenario_left_undecided",
-			"sync_interrupted_after_head_stored", "half_synced_head_pushed_again", "half_synced_state_survived_node_restart"},
+			"sync_interrupted_after_head_stored", "half_synced_head_pushed_again", "half_synced_state_survived_node_restart",
+			"branchable_scenarios", "collection_level_commits_during_outage", "collection_level_push_failure_recorded", "collection_level_heads_compared",
+			"acp_scenarios", "writes_to_private_documents", "private_documents_existing_at_setreplicator", "documents_existing_at_setreplicator"},
 		CaseTimeout: 1200 * time.Second, // two attempts of a pair, each bounded by the (stretched) deadline
 		Assumptions: []string{
 			"unbounded 'eventually' restated as: converged, or (B lacks a commit of A and nothing is pending anywhere: no retry record / retry-doc marker for B in A's peer store, no push in flight, the newest update event of every document has had its push attempt, no merge in flight on B) observed unchanged on 14 successive observations; work still pending at D=90s is inconclusive (after one re-execution on fresh nodes), never a violation",
@@ -1643,7 +1997,11 @@ func init() {
 			"an interrupted sync is produced by failing direct (non-transactional) operations on /db/blocks of B (the receiver's syncDAG and block service; merges run in transactions and are never failed); the window is always closed before the verdict, so the retry runs against a healthy store",
 			"'B holds a head of A without its complete DAG' is observed on the raw stores (head block present on B, some block of its closure on A absent on B), not inferred from the injected fault",
 			"pushes are observed through gRPC interceptors installed via net/config Options (no repository change); receiver merge failures through the process' error log",
-			"libp2p over 127.0.0.1, signing off, no ACP",
+			"libp2p over 127.0.0.1, signing off; document ACP only in the acp scenario family (local ACP on both nodes, same policy, documents registered to one owner identity on A only, B without node identity stores what it receives; comparison queries run under the owner identity)",
+			"branchable scenarios: B must end with A's collection-level heads (/db/heads/c/...) as well as the document heads; the newest collection-level update event must have had its push attempt before A counts as quiescent",
+			"a third clock-free criterion counts retry rounds: the retry record started 5 further rounds (NumRetries) during which A sent no push and the retry-doc markers did not change, B reachable, nothing in flight on B",
+			"schedules with an explicit `setrep` step configure the replicator after documents exist: update events before SetReplicator are the business of its initial push, whose end is observed (replicator-completed event on A's bus), not timed",
+			"a schedule without outage and fault window is its own control (executed once); a loss in a control is reported as undelivered-without-outage/... whatever the disturbed schedule did",
 			"A itself is never restarted (the property quantifies over outages of B)",
 		},
 		PostProcess: func(sup *core.Supervisor, m *core.Rec) {
